@@ -155,8 +155,16 @@ impl FaultReader {
     pub fn log_sum(&self) -> i128 {
         self.log.iter().map(|(_, a)| *a).sum()
     }
-    fn injected() -> std::io::Error {
-        std::io::Error::new(std::io::ErrorKind::Other, "injected fault")
+    /// The kind of the injected error rotates with the fault offset and the stream length: the property speaks of
+    /// ANY error the reader reports (`Interrupted`, which `Read` defines as "retry", is injected separately).
+    fn injected(&self) -> std::io::Error {
+        use std::io::ErrorKind::*;
+        const KINDS: [std::io::ErrorKind; 10] = [
+            Other, OutOfMemory, WouldBlock, TimedOut, ConnectionReset, InvalidData, UnexpectedEof, PermissionDenied,
+            BrokenPipe, InvalidInput,
+        ];
+        let k = (self.fault.unwrap_or(0) as usize).wrapping_mul(7).wrapping_add(self.len as usize) % KINDS.len();
+        std::io::Error::new(KINDS[k], "injected fault")
     }
 }
 impl Read for FaultReader {
@@ -176,7 +184,7 @@ impl Read for FaultReader {
                 if self.transient {
                     self.fault = None;
                 }
-                return Err(Self::injected());
+                return Err(self.injected());
             }
         }
         if let Some(z) = self.eof_once {
@@ -235,7 +243,7 @@ impl Seek for FaultReader {
                 if self.transient {
                     self.fault = None;
                 }
-                return Err(Self::injected());
+                return Err(self.injected());
             }
         }
         let new = if self.clamp && target > self.len { self.len.max(self.pos) } else { target };
